@@ -288,12 +288,166 @@ static void pedersen_systems(World &W, const Args &a) {
 	emit(S, a, a.thorough() ? 4 : 2);
 }
 
+
+// ------------------------------------------------------------------------------------------------ records
+static std::string zl(const std::vector<Z> &v) { if (v.empty()) return "_"; std::string r; for (size_t i = 0; i < v.size(); i++) { if (i) r += ","; r += hx(v[i]); } return r; }
+// the oracle table of everything hashed since logging was switched on: "k1,k2,..:v;..."
+static std::string table_token() {
+	bool keep = g_hash_logging; g_hash_logging = false;
+	std::string r; std::set<std::string> seen;
+	for (auto &x : g_hash_log) {
+		if (seen.count(x)) continue; seen.insert(x);
+		std::vector<Z> ks; bool ok = !x.empty() && x.back() == '|'; size_t i = 0;
+		while (ok && i < x.size()) { size_t j = x.find('|', i); if (j == std::string::npos) { ok = false; break; } Z v; if (j == i || mpz_set_str(v, x.substr(i, j - i).c_str(), 16) != 0) { ok = false; break; } ks.push_back(v); i = j + 1; }
+		if (!ok || ks.empty()) continue;
+		Z h; tmcg_mpz_shash(h, x);
+		if (!r.empty()) r += ";";
+		r += zl(ks) + ":" + hx(h);
+	}
+	g_hash_logging = keep;
+	return r.empty() ? "_" : r;
+}
+static void grp_tokens(Rec &R, BarnettSmartVTMF_dlog *V) {
+	R.z(V->p).z(V->q).z(V->g).z(V->h).z(V->fpowm_table_g[0]).z(V->fpowm_table_h[0]).u(tmcg_mpz_shash_len() * 8);
+}
+template<class F> static int logged_verdict(F f) {
+	g_hash_log.clear(); g_hash_logging = true; int v;
+	try { v = f() ? 1 : 0; } catch (...) { v = 2; }
+	g_hash_logging = false; return v;
+}
+// every single-value variant of a vector of values (honest first), knobs of the verifier object included
+static void variants(std::vector<Z> vals, BarnettSmartVTMF_dlog *V, bool knobs, const std::function<void(const std::vector<Z>&)> &f) {
+	f(vals);
+	SplitMix64 rg(gen().next());
+	for (size_t i = 0; i < vals.size(); i++) {
+		Z keep = vals[i];
+		for (auto &m : catalogue(keep, V->p, V->q, rg)) {
+			if (m.name == "huge" && false) continue;
+			vals[i] = m.val; f(vals);
+		}
+		vals[i] = keep;
+	}
+	if (knobs) {
+		mpz_ptr ks[4] = { V->p, V->q, V->g, V->h };
+		for (int k = 0; k < 4; k++) {
+			Z keep(ks[k]);
+			for (int d = 1; d <= 2; d++) { mpz_add_ui(ks[k], keep, 2 * d); f(vals); }
+			mpz_set(ks[k], keep);
+		}
+	}
+}
+static std::string lines(std::initializer_list<mpz_srcptr> l) { std::ostringstream o; for (auto z : l) o << z << std::endl; return o.str(); }
+
+static void fsser_records(const Args &a) {
+	int n = a.thorough() ? 400 : 120;
+	for (int it = 0; it < n; it++) {
+		size_t k = 1 + gen().below(6), nv = gen().below(4), nw = gen().below(3);
+		auto rnd = [&](Z &z) { unsigned sel = gen().below(8); if (sel == 0) mpz_set_ui(z, 0); else if (sel == 1) mpz_set_ui(z, gen().below(17)); else gen_bits(z, 1 + gen().below(300)); if (sel >= 6) mpz_neg(z, z);
+			if (sel == 2) { mpz_set_ui(z, 1); mpz_mul_2exp(z, z, 4 * gen().below(40)); if (gen().coin()) mpz_sub_ui(z, z, 1); } };
+		std::vector<Z> sc(k), v(nv), w(nw), pa(2 * nv), pb(2 * nv);
+		for (auto &z : sc) rnd(z); for (auto &z : v) rnd(z); for (auto &z : w) rnd(z); for (auto &z : pa) rnd(z); for (auto &z : pb) rnd(z);
+		std::vector<mpz_ptr> vp, wp; for (auto &z : v) vp.push_back(z); for (auto &z : w) wp.push_back(z);
+		std::vector<std::pair<mpz_ptr, mpz_ptr> > pv, pw; for (size_t i = 0; i < nv; i++) { pv.push_back({pa[2 * i], pa[2 * i + 1]}); pw.push_back({pb[2 * i], pb[2 * i + 1]}); }
+		mpz_srcptr s[6]; for (size_t i = 0; i < 6; i++) s[i] = sc[i < k ? i : 0];
+		Z r; std::vector<Z> all;
+		int form = gen().below(5);
+		g_hash_log.clear(); g_hash_logging = true;
+		switch (form) {
+		case 0: switch (k) { case 1: tmcg_mpz_shash(r, 1, s[0]); break; case 2: tmcg_mpz_shash(r, 2, s[0], s[1]); break; case 3: tmcg_mpz_shash(r, 3, s[0], s[1], s[2]); break;
+			case 4: tmcg_mpz_shash(r, 4, s[0], s[1], s[2], s[3]); break; case 5: tmcg_mpz_shash(r, 5, s[0], s[1], s[2], s[3], s[4]); break; default: tmcg_mpz_shash(r, 6, s[0], s[1], s[2], s[3], s[4], s[5]); }
+			break;
+		case 1: tmcg_mpz_shash_1vec(r, vp, 2, s[0], s[1]); all = v; break;
+		case 2: tmcg_mpz_shash_2vec(r, vp, wp, 3, s[0], s[1], s[2]); all = v; all.insert(all.end(), w.begin(), w.end()); break;
+		case 3: tmcg_mpz_shash_2pairvec(r, pv, pw, 1, s[0]); all = pa; all.insert(all.end(), pb.begin(), pb.end()); break;
+		default: tmcg_mpz_shash_2pairvec2vec(r, pv, pw, vp, wp, 2, s[0], s[1]); all = pa; all.insert(all.end(), pb.begin(), pb.end()); all.insert(all.end(), v.begin(), v.end()); all.insert(all.end(), w.begin(), w.end()); break;
+		}
+		g_hash_logging = false;
+		size_t used = form == 0 ? k : form == 1 ? 2 : form == 2 ? 3 : form == 3 ? 1 : 2; if (form == 0 && k > 6) used = 6;
+		for (size_t i = 0; i < used; i++) all.push_back(sc[i < k ? i : 0]);
+		if (g_hash_log.size() != 1) { printf("NOTE fsser: %zu strings logged for one call\n", g_hash_log.size()); continue; }
+		Rec("fsser").t(zl(all)).b(g_hash_log[0]);
+	}
+}
+
+static void verifier_records(const Args &a) {
+	World W(a.thorough() ? 192 : 128, a.thorough() ? 96 : 64);
+	BarnettSmartVTMF_dlog *A = W.A, *B = W.B;
+	int reps = a.thorough() ? 3 : 1;
+	for (int rep = 0; rep < reps; rep++) {
+		{   // KeyGenerationProtocol_VerifyNIZK(foo, c, r)
+			Z c, r; A->KeyGenerationProtocol_ComputeNIZK(c, r);
+			variants({Z(A->h_i), c, r}, B, true, [&](const std::vector<Z> &v) {
+				int out = logged_verdict([&] { return B->KeyGenerationProtocol_VerifyNIZK(v[0], v[1], v[2]); });
+				Rec R("keyv"); grp_tokens(R, B); R.z(v[0]).z(v[1]).z(v[2]).t(table_token()).d(out); });
+		}
+		{   // interactive key-share proof: the verifier's challenge is read off its output
+			std::string p2v, v2p; uint64_t sp = gen().next(), sv = gen().next();
+			Z key(A->h_i);
+			VerifierFn ver = [&](std::istream &i, std::ostream &o) { return B->KeyGenerationProtocol_VerifyKey_interactive(key, i, o); };
+			int hv = run_pair(sp, sv, [&](std::istream &i, std::ostream &o) { A->KeyGenerationProtocol_ProveKey_interactive(i, o); }, ver, p2v, v2p);
+			std::vector<Atom> at = atoms_of(p2v);
+			if (hv == 1 && at.size() == 2) {
+				Z m1, m2; from_b62(m1, p2v.substr(at[0].pos, at[0].len)); from_b62(m2, p2v.substr(at[1].pos, at[1].len));
+				variants({key, m1, m2}, B, true, [&](const std::vector<Z> &v) {
+					mpz_set(key, v[0]); std::string out2;
+					int out = replay_verifier(sv, lines({v[1], v[2]}), ver, &out2);
+					Z c; std::vector<Atom> ca = atoms_of(out2);
+					if (ca.empty()) return;                  // refused before the challenge was sent
+					from_b62(c, out2.substr(ca[0].pos, ca[0].len));
+					Rec R("keyintv"); grp_tokens(R, B); R.z(v[0]).z(v[1]).z(c).z(v[2]).d(out); });
+				mpz_set(key, A->h_i);
+			} else printf("NOTE rec keyint: honest run verdict %d\n", hv);
+		}
+		Z m, c1, c2, r, d1, d2, r2;
+		B->RandomElement(m); A->VerifiableMaskingProtocol_Mask(m, c1, c2, r); A->VerifiableRemaskingProtocol_Mask(c1, c2, d1, d2, r2);
+		auto two = [](const std::string &t, Z &c, Z &rr) { std::vector<Atom> at = atoms_of(t); from_b62(c, t.substr(at[at.size() - 2].pos, at[at.size() - 2].len)); from_b62(rr, t.substr(at[at.size() - 1].pos, at[at.size() - 1].len)); };
+		{   // masking proof, and CP_Verify directly with and without tables
+			std::ostringstream o; A->VerifiableMaskingProtocol_Prove(m, c1, c2, r, o); Z c, rr; two(o.str(), c, rr);
+			variants({m, c1, c2, c, rr}, B, true, [&](const std::vector<Z> &v) {
+				int out = logged_verdict([&] { std::istringstream i(lines({v[3], v[4]})); return B->VerifiableMaskingProtocol_Verify(v[0], v[1], v[2], i); });
+				Rec R("maskv"); grp_tokens(R, B); R.z(v[0]).z(v[1]).z(v[2]).z(v[3]).z(v[4]).t(table_token()).d(out); });
+			Z mi, y; mpz_invert(mi, m, B->p); mpz_mul(y, mi, c2); mpz_mod(y, y, B->p);
+			for (int fp = 1; fp >= 0; fp--)
+				variants({c1, y, Z(B->g), Z(B->h), c, rr}, B, fp == 1, [&](const std::vector<Z> &v) {
+					if (!fp && mpz_sgn(v[5].v) < 0 && (mpz_divisible_p(v[2], B->p) || mpz_divisible_p(v[3], B->p))) return;
+					int out = logged_verdict([&] { std::istringstream i(lines({v[4], v[5]})); return B->CP_Verify(v[0], v[1], v[2], v[3], i, fp == 1); });
+					Rec R("cpv"); grp_tokens(R, B); R.z(v[0]).z(v[1]).z(v[2]).z(v[3]).z(v[4]).z(v[5]).d(fp).t(table_token()).d(out); });
+		}
+		{   // re-masking proof
+			std::ostringstream o; A->VerifiableRemaskingProtocol_Prove(c1, c2, d1, d2, r2, o); Z c, rr; two(o.str(), c, rr);
+			variants({c1, c2, d1, d2, c, rr}, B, true, [&](const std::vector<Z> &v) {
+				int out = logged_verdict([&] { std::istringstream i(lines({v[4], v[5]})); return B->VerifiableRemaskingProtocol_Verify(v[0], v[1], v[2], v[3], i); });
+				Rec R("remaskv"); grp_tokens(R, B); R.z(v[0]).z(v[1]).z(v[2]).z(v[3]).z(v[4]).z(v[5]).t(table_token()).d(out); });
+		}
+		{   // decryption share: d_j, fingerprint, c, r
+			std::ostringstream o; A->VerifiableDecryptionProtocol_Prove(c1, o); std::string t = o.str(); std::vector<Atom> at = atoms_of(t);
+			Z dj, fp, c, rr; from_b62(dj, t.substr(at[0].pos, at[0].len)); from_b62(fp, t.substr(at[1].pos, at[1].len)); two(t, c, rr);
+			B->VerifiableDecryptionProtocol_Verify_Initialize(c1);
+			variants({c1, dj, fp, c, rr}, B, true, [&](const std::vector<Z> &v) {
+				std::ostringstream f; f << (mpz_srcptr)v[2]; std::string hj = B->h_j.count(f.str()) ? hx(B->h_j[f.str()]) : std::string("none");
+				int out = logged_verdict([&] { std::istringstream i(lines({v[1], v[2], v[3], v[4]})); return B->VerifiableDecryptionProtocol_Verify_Update(v[0], i); });
+				Rec R("decv"); grp_tokens(R, B); R.z(v[0]).t(hj).z(v[1]).z(v[3]).z(v[4]).t(table_token()).d(out); });
+		}
+		for (int which = 0; which < 2; which++) {   // OR proof
+			Z al, y1, y2; A->MaskingValue(al);
+			if (which == 0) { mpz_powm(y1, A->g, al, A->p); B->RandomElement(y2); } else { B->RandomElement(y1); mpz_powm(y2, A->h, al, A->p); }
+			std::ostringstream o; if (which == 0) A->OR_ProveFirst(y1, y2, A->g, A->h, al, o); else A->OR_ProveSecond(y1, y2, A->g, A->h, al, o);
+			std::string t = o.str(); std::vector<Atom> at = atoms_of(t); Z x[4]; for (int i = 0; i < 4; i++) from_b62(x[i], t.substr(at[i].pos, at[i].len));
+			variants({y1, y2, Z(B->g), Z(B->h), x[0], x[1], x[2], x[3]}, B, true, [&](const std::vector<Z> &v) {
+				// mpz_powm with a negative exponent needs an invertible base (GMP divides by zero otherwise): not generated
+				for (int i = 0; i < 4; i++) if (mpz_sgn(v[4 + i].v) < 0) { int b = (i == 0) ? 0 : (i == 1) ? 1 : (i == 2) ? 2 : 3; if (mpz_divisible_p(v[b], B->p)) return; }
+				int out = logged_verdict([&] { std::istringstream i(lines({v[4], v[5], v[6], v[7]})); return B->OR_Verify(v[0], v[1], v[2], v[3], i); });
+				Rec R("orv"); grp_tokens(R, B); for (int i = 0; i < 8; i++) R.z(v[i]); R.t(table_token()).d(out); });
+		}
+	}
+}
+
 int main(int argc, char **argv) {
 	Args a(argc, argv);
 	if (!init_libTMCG()) { fprintf(stderr, "libTMCG_init failed\n"); return 3; }
 	unsigned long fsz = a.thorough() ? 768 : 512, gsz = a.thorough() ? 192 : 160;
 	std::string only = a.only;
-	if (only == "rec") { return 0; }
+	if (only == "rec") { fsser_records(a); verifier_records(a); printf("DONE rec\n"); return 0; }
 	World W(fsz, gsz);
 	printf("WORLD p=%s q=%s\n", hx(W.A->p).c_str(), hx(W.A->q).c_str());
 	if (only.empty() || only == "vtmf") vtmf_systems(W, a);
